@@ -1,11 +1,12 @@
 (* C19 -- UML class generation is complete, namespace-faithful and self-consistent.
    Only statements, each closed by [exact], each followed by Print Assumptions. *)
-From Coq Require Import String Ascii List Bool.
+From Coq Require Import String Ascii List Bool Sorting.Sorted.
 From KV Require Import Lib.Str Model.Vpp Gen.UmlSrc Gen.UmlCsSrc Model.Uml Model.UmlCs Spec.UmlSpec Proofs.UmlProofs Proofs.UmlFiles
                        Proofs.UmlUnique Proofs.UmlCsFiles Proofs.UmlCsOps Proofs.UmlCsPins Proofs.UmlCsTop
+                       Model.UmlIncl Gen.UmlInclSrc Proofs.SortedSet Proofs.UmlInclSorted Proofs.UmlInclCover Proofs.UmlInclPins
                        Model.UmlBlob Model.UmlWriter Gen.UmlBlobShipped Proofs.UmlBlobDefs Proofs.UmlBlobStruct Proofs.UmlBlobText
                        Proofs.UmlBlobTop Proofs.UmlBlobRound Proofs.UmlBlobVis Proofs.UmlBlobCompose Proofs.UmlBlobCalib Proofs.UmlBlobPins
-                       Model.UmlDomain Model.UmlSem Gen.UmlSemShipped Proofs.UmlSemExample Proofs.UmlSemCalib Proofs.UmlSemTop Proofs.UmlCsFrom.
+                       Model.UmlDomain Model.UmlSem Gen.UmlSemShipped Proofs.UmlSemExample Proofs.UmlSemCalib Proofs.UmlSemTop Proofs.UmlCsFrom Proofs.UmlInclFrom.
 Import ListNotations.
 Open Scope string_scope.
 
@@ -151,6 +152,94 @@ Theorem C19_namespace_balanced : forall ns body,
   /\ join "::" (split2 ":" ":" ns) = ns.
 Proof. exact namespace_balanced. Qed.
 Print Assumptions C19_namespace_balanced.
+
+(* ====================================================================================================================
+   INCLUDES AND FORWARD DECLARATIONS of the generated C++ (Model/UmlIncl.v).  d : idiagram = the RAW diagram the computation works
+   on: classes with the qualified type names, modifiers and multiplicities of their attributes, parameters and return types;
+   inheritance entries with the qualified name of the base; associations with both ends.  nfd d c = Class.GetNotForwardDeclarable-
+   NonPrimitiveTypesLinkedToThis (what the header needs COMPLETE: base classes / realised interfaces, value members, value
+   parameters and returns, composition targets), fd d c = GetForwardDeclarable... (pointer / reference members, parameters,
+   returns, association and aggregation ends, minus the value uses), header_includes / source_includes / forward_decls = the
+   lines LanguageCPP puts into the header / the source file.  "Accepted by a C++ compiler" itself stays an observation (g++). *)
+
+(* COVER: names well formed (class names non-empty without ':', namespace components likewise).  For every class k OF THE DIAGRAM
+   whose qualified name the header of c uses by value, the header has the line  #include "<rel>/<k>.h"  where rel is k's namespace
+   as seen from c's folder (nothing for c's own namespace, the remainder for a namespace nested in c's, the whole chain
+   otherwise) when namespace folders are on, and nothing when they are off ... *)
+Theorem C19_includes_cover : forall (fuel : nat) (nsf : bool) (d : idiagram) (c k : icls) (l : list string),
+  incl_names_ok d = true -> In c (i_classes d) -> In k (i_classes d) ->
+  In (qname k) (nfd_raw d c) ->
+  header_includes fuel nsf d c = Some l ->
+  In (spec_include nsf c k) l.
+Proof. exact includes_cover. Qed.
+Print Assumptions C19_includes_cover.
+
+(* ... and that path IS the header C19_files generates for k (spec_folder / folder_chain of Spec/UmlSpec.v): relative to the
+   folder of c's own header, or from the root of the output -- also for a same-named class of another package, a class
+   without package and a class whose name occurs inside its package's name (K-C19-11 / K-C19-12 repaired) *)
+Theorem C19_include_resolves : forall (nsf : bool) (c k : icls), incl_name_ok c = true -> incl_name_ok k = true ->
+  let path := (if nsf && negb (String.eqb (rel_namespace c k) "") then replace_all "::" "/" (rel_namespace c k) ++ "/" else "") ++ ic_name k ++ ".h" in
+  spec_folder nsf (ic_ns c) ++ path = spec_folder nsf (ic_ns k) ++ ic_name k ++ ".h"
+  \/ path = spec_folder nsf (ic_ns k) ++ ic_name k ++ ".h".
+Proof. exact include_resolves. Qed.
+Print Assumptions C19_include_resolves.
+
+(* a class used only through pointers / references is included by the SOURCE file *)
+Theorem C19_source_includes_cover : forall (nsf : bool) (d : idiagram) (c k : icls),
+  incl_names_ok d = true -> In c (i_classes d) -> In k (i_classes d) -> In (qname k) (fd d c) ->
+  In (spec_include nsf c k) (source_includes nsf d c).
+Proof. exact source_cover. Qed.
+Print Assumptions C19_source_includes_cover.
+
+(* every type a class uses through a pointer or reference (member, parameter, return, association / aggregation end) is forward
+   declarable or -- when it is also used by value -- among the included ones; a forward declarable type is declared as
+   class <name>;  inside  namespace <its namespace> { ... } *)
+Theorem C19_pointer_use_covered : forall (d : idiagram) (c : icls) (t : string),
+  In t (pointer_types c ++ assoc_pointers d c)%list -> In t (fd d c) \/ In t (nfd d c).
+Proof. exact pointer_use_covered. Qed.
+Print Assumptions C19_pointer_use_covered.
+
+Theorem C19_forward_declared : forall (d : idiagram) (c : icls) (t : string), In t (fd d c) ->
+  In (rstrip_char ":" (substring 0 (String.length t - String.length (List.last (split2 ":" ":" t) "")) t), List.last (split2 ":" ":" t) "")
+     (flat_map (fun kv : string * list string => map (fun n => (fst kv, n)) (snd kv)) (ns_to_classes false (ic_ns c) (fd d c)))
+  /\ In ("    class " ++ List.last (split2 ":" ":" t) "" ++ ";") (forward_decls d c)
+  /\ In (ns_begin (rstrip_char ":" (substring 0 (String.length t - String.length (List.last (split2 ":" ":" t) "")) t))) (forward_decls d c).
+Proof. exact forward_declared. Qed.
+Print Assumptions C19_forward_declared.
+
+(* <vector>: a to-many association end that becomes a member of c (or a to-many attribute / parameter, a [] return) brings
+   #include <vector> into c's header *)
+Theorem C19_vector_included : forall (fuel : nat) (nsf : bool) (d : idiagram) (c : icls) (l : list string),
+  own_vector d c = true -> header_includes fuel nsf d c = Some l -> In "#include <vector>" l.
+Proof. exact vector_included. Qed.
+Print Assumptions C19_vector_included.
+
+Theorem C19_to_many_end_vector : forall (d : idiagram) (c : icls) (m : string),
+  In m (assoc_member_mults d c) -> is_vector m = true -> own_vector d c = true.
+Proof. exact to_many_end_vector. Qed.
+Print Assumptions C19_to_many_end_vector.
+
+(* DETERMINISTIC ORDER: both dependency lists are sorted by FULL name (so two types of one name in different packages are
+   ordered by their packages: le_s is a total order on the full names), hold no name twice, and depend only on the SET of names
+   collected -- not on the order in which Python iterates the set, nor on how often a name was added (with
+   C06_hash_order_irrelevant: sorted(set) is independent of the iteration order) *)
+Theorem C19_includes_sorted : forall (d : idiagram) (c : icls),
+  (StronglySorted le_s (nfd d c) /\ NoDup (nfd d c) /\ (forall x, In x (nfd d c) <-> In x (nfd_raw d c))
+   /\ (forall l, (forall x, In x l <-> In x (nfd_raw d c)) -> sorted_set l = nfd d c))
+  /\ (StronglySorted le_s (fd d c) /\ NoDup (fd d c) /\ (forall x, In x (fd d c) <-> In x (fd_raw d c))
+      /\ (forall l, (forall x, In x l <-> In x (fd_raw d c)) -> sorted_set l = fd d c)).
+Proof. exact (fun d c => conj (includes_sorted d c) (forward_sorted d c)). Qed.
+Print Assumptions C19_includes_sorted.
+
+Theorem C19_full_name_order : (forall a b : string, le_s a b \/ le_s b a) /\ (forall a b : string, le_s a b -> le_s b a -> a = b)
+  /\ sorted_set ["B::K"; "A::K"; "B::K"] = ["A::K"; "B::K"].
+Proof. exact (conj full_name_order (conj full_name_antisym same_name_tie)). Qed.
+Print Assumptions C19_full_name_order.
+
+(* the sources still have the shape the model was written against *)
+Theorem C19_includes_source_shape : includes_expected.
+Proof. exact include_pins. Qed.
+Print Assumptions C19_includes_source_shape.
 
 (* ====================================================================================================================
    THE C# BACK END (umlgen with LanguageCsharp; Model/UmlCs.v).  There is no C# compiler in this environment: nothing below
@@ -532,3 +621,22 @@ Theorem C19_realised_cs_from_diagram : forall (D : sdiagram) (d : db) fuel vis (
   /\ In {| en_class := c_name k; en_owner := c_name p; en_owner_pure := true; en_realised := true; en_op := cs_oper o |} l.
 Proof. exact realised_cs_from_diagram. Qed.
 Print Assumptions C19_realised_cs_from_diagram.
+
+(* ... and the includes: idiagram_of D = the raw diagram (qualified type names, modifiers, multiplicities, inheritance and
+   association ends) of the objects read; from ANY project hosting D's rows the header of c includes every class of the diagram
+   it uses by value, and <vector> for a to-many member *)
+Theorem C19_includes_cover_from_diagram : forall (D : sdiagram) (d : db) (fuel : nat) (nsf : bool) (c k : icls) (l : list string),
+  sdiagram_ok D = true -> chosts d (tree_of D) = true ->
+  incl_names_ok (idiagram_of D) = true -> In c (i_classes (idiagram_of D)) -> In k (i_classes (idiagram_of D)) ->
+  In (qname k) (nfd_raw (idiagram_of D) c) ->
+  header_includes fuel nsf (idiagram_of D) c = Some l ->
+  adaptor_incl d (sd_name D) = Some (idiagram_of D) /\ In (spec_include nsf c k) l.
+Proof. exact includes_cover_from_diagram. Qed.
+Print Assumptions C19_includes_cover_from_diagram.
+
+Theorem C19_vector_from_diagram : forall (D : sdiagram) (d : db) (fuel : nat) (nsf : bool) (c : icls) (l : list string),
+  sdiagram_ok D = true -> chosts d (tree_of D) = true ->
+  own_vector (idiagram_of D) c = true -> header_includes fuel nsf (idiagram_of D) c = Some l ->
+  adaptor_incl d (sd_name D) = Some (idiagram_of D) /\ In "#include <vector>" l.
+Proof. exact vector_from_diagram. Qed.
+Print Assumptions C19_vector_from_diagram.
